@@ -155,7 +155,7 @@ def validity_sample(prop, seed, exe, cdir, n, rdir):
                 shutil.copy(os.path.join(outdir, outbase), os.path.join(outdir, "_main_.c"))
                 cfiles = [f for f in cfiles if f != outbase] + ["_main_.c"]
             ok = True
-            cmds = [["gcc", "-std=gnu89", "-w", "-fsyntax-only", "-I" + os.path.join(REPO, "w2c2"), "-I" + outdir, os.path.join(outdir, f)] for f in cfiles]
+            cmds = [["gcc", "-std=gnu89", "-w", "-fsyntax-only", "-DWASM_THREADS_PTHREADS", "-I" + os.path.join(REPO, "w2c2"), "-I" + outdir, os.path.join(outdir, f)] for f in cfiles]
             try:
                 parallel_cmds(cmds, timeout=300)
             except BuildError as e:
